@@ -31,6 +31,7 @@ Obs(post) ==
    saved     |-> post.saved,
    startH    |-> post.startH,
    reported  |-> {},          \* ghost, carried by the trace spec (see StepCall)
+   durable   |-> {},          \* ghost: evidence of durably applied blocks, carried by the trace spec
    upd       |-> NoUpd,       \* position inside a stopped Update: carried by the trace spec
    inflight  |-> {[tk |-> post.inflight[i].tk, id |-> post.inflight[i].id, h |-> post.inflight[i].h] : i \in DOMAIN post.inflight}]
 
@@ -59,11 +60,13 @@ StepCall(e) ==
       q == Obs(e.post)
       r == Step(c, p, a)
       hasRes == TRUE      \* every call is logged with its outcome: ok | err | panic
-      bad == StateStepViol(c, p, q) \cup StepViol(c, p, q, a)
+      \* the observed state with the ghosts the trace spec carries along
+      qg == [q EXCEPT !.reported = r.p.reported, !.durable = r.p.durable,
+                      !.upd = IF e.ev = "UpdateBegin" /\ e.stage = "finished" THEN NoUpd ELSE r.p.upd]
+      bad == StateStepViol(c, p, qg) \cup StepViol(c, p, qg, a)
   IN
   /\ c' = c
-  /\ p' = [q EXCEPT !.reported = r.p.reported,
-                    !.upd = IF e.ev = "UpdateBegin" /\ e.stage = "finished" THEN NoUpd ELSE r.p.upd]
+  /\ p' = qg
   /\ drift' = drift
        \cup FailIf(\E i \in DOMAIN q.buffer : ~KnownPair(c, q.buffer[i]), D(e.ev \o ": consensus buffer holds a pair the context does not know", "pair"))
        \cup (IF e.ev = "Report" THEN FailIf(~KnownPair(c, e.pair), D("Report: unknown pair", "pair")) ELSE {})
